@@ -1,6 +1,7 @@
 import Exetera.Props.C04
 import Exetera.Props.C10.Basic
 import Exetera.Model.KernelSitesMapValid
+import Exetera.Model.KernelPathsMapValid
 import Exetera.Lemmas.NoOobMapValid
 /-!
 # C10 — the map-valid kernels (owning property: C04)
@@ -17,6 +18,14 @@ open Exetera Exetera.MapValid Exetera.Spec
 /-- the loop guards and subscripts of the modelled map-valid kernels, as regenerated from the current source, are
     exactly the ones the model was written against -/
 theorem access_sites_covered_map_valid : ∀ k ∈ KernelSites.mapValidSites, lookup k.1 = some k := by decide +kernel
+
+/-- the PATH CONDITION of every subscript occurrence in these kernels (enclosing loop guards, `if` / `elif` tests, negated
+    `else` branches and early exits), as regenerated from the current source (`Gen/KernelPaths.lean`), is exactly the one the
+    model was written against (`Model/KernelPathsMapValid.lean`): dropping or changing a test that dominates a subscript breaks
+    the build; and the table covers exactly the kernels of the site table -/
+theorem access_paths_covered_map_valid :
+    (∀ k ∈ KernelPaths.mapValidPaths, lookupPaths k.1 = some k) ∧
+    KernelPaths.mapValidPaths.map (·.1) = KernelSites.mapValidSites.map (·.1) := by decide +kernel
 
 example : KernelSites.mapValidSites.length = 7 := by decide
 
@@ -111,7 +120,9 @@ theorem no_oob_map_valid {α} (data : List α) (m : List Int) (result : Option (
 
 example : mapValid [10, 20, 30] [2, -1, 0] (some [7, 7, 7]) (-1) (0 : Int) = .ok [30, 7, 10] := by rfl
 
-/-- `safe_map_indexed_values` with the filter "entry is not the marker" on a well-formed indexed source -/
+/-- `safe_map_indexed_values` with the filter "entry is not the marker" on a well-formed indexed source. The model checks
+    the writes `i_result[i + 1]` and `v_result[dst:dse]` against the sizes the kernel allocates between its two passes
+    (`len(map_field) + 1`, the `value_length` of the first pass), so this covers the result arrays too -/
 theorem no_oob_safe_map_indexed_values {β} (indices : List Int) (values : List β) (m : List Int) (inv : Int)
     (hok : IndexedOK indices values) (hr : InRange (entries indices values).length m inv) (site : String) :
     safeMapIndexedValues indices values m (m.map (fun k => k != inv)) [] ≠ .error (.oob site) :=
@@ -119,6 +130,57 @@ theorem no_oob_safe_map_indexed_values {β} (indices : List Int) (values : List 
 
 example : safeMapIndexedValues [0, 1, 3] [97, 98, 99] [1, -1, 0] ([1, -1, 0].map (fun k => k != -1)) []
     = .ok ([0, 2, 2, 3], [98, 99, 97]) := by rfl
+
+/-- **the result arrays of `safe_map_indexed_values` are never overrun**: whatever the arguments (valid or not) and whatever
+    sizes `capI = len(i_result)`, `capV = len(v_result)`, an iteration of the second pass that returns normally has written
+    `i_result[i + 1]` inside `i_result`, and a slice it has written to `v_result` ends inside `v_result` -/
+theorem safe_map_indexed_step_bounded {β} (indices : List Int) (values : List β) (m : List Int) (filt : List Bool)
+    (empty : List β) (capI : Nat) (capV : Int) (i : Nat) (s s' : SI β)
+    (h : smivStep indices values m filt empty capI capV i s = .ok s') :
+    i + 1 < capI ∧ ((filt[i]? = some true ∨ empty ≠ []) → s'.offset ≤ capV) := by
+  unfold smivStep at h
+  cases hf : filt[i]? with
+  | none => simp only [hf] at h; cases h
+  | some b =>
+    cases b with
+    | true =>
+      simp only [hf] at h
+      cases hm : m[i]? with
+      | none => simp only [hm] at h; cases h
+      | some k =>
+        simp only [hm] at h
+        cases ha : getI indices k "data_indices[map_field[i]]" with
+        | error e => simp only [ha] at h; cases h
+        | ok sst =>
+          cases hb : getI indices (k + 1) "data_indices[map_field[i]+1]" with
+          | error e => simp only [ha, hb] at h; cases h
+          | ok sse =>
+            simp only [ha, hb] at h
+            by_cases hc : capI ≤ i + 1
+            · simp only [hc, if_true] at h; cases h
+            · by_cases hv : capV < s.offset + (sse - sst)
+              · simp only [hc, hv, if_true, if_false] at h; cases h
+              · simp only [hc, hv, if_false] at h
+                cases h
+                exact ⟨by omega, fun _ => by simp only; omega⟩
+    | false =>
+      simp only [hf] at h
+      by_cases hc : capI ≤ i + 1
+      · simp only [hc, if_true] at h; cases h
+      · by_cases hv : (!empty.isEmpty && decide (capV < s.offset + (empty.length : Int))) = true
+        · simp only [hc, hv, if_true, if_false] at h; cases h
+        · simp only [hc, hv, if_false] at h
+          cases h
+          refine ⟨by omega, fun hor => ?_⟩
+          rcases hor with hor | hor
+          · cases hor
+          · have hne : empty.isEmpty = false := by cases empty <;> simp_all
+            simp only [hne, Bool.not_false, Bool.true_and, decide_eq_true_eq] at hv
+            simp only; omega
+
+example : smivStep [0, 1, 3] [97, 98, 99] [1] [true] [] 1 5 0 ⟨0, [0], []⟩ = .error (.oob "i_result[i+1]") ∧
+    smivStep [0, 1, 3] [97, 98, 99] [1] [true] [] 2 1 0 ⟨0, [0], []⟩ = .error (.oob "v_result[dst:dse]") ∧
+    smivStep [0, 1, 3] [97, 98, 99] [1] [true] [] 2 2 0 ⟨0, [0], []⟩ = .ok ⟨2, [0, 2], [98, 99]⟩ := ⟨by rfl, by rfl, by rfl⟩
 
 /-- `get_map_subchunks_based_on_index_lengths` / `next_map_subchunk` on ANY map, marker and chunk size ≥ 1 -/
 theorem no_oob_subchunks (m : List Int) (inv : Int) (cs : Nat) (hcs : 1 ≤ cs) (site : String) :
